@@ -1,8 +1,11 @@
 (* Props/C13.v -- property C13: read-only queries are total on arbitrary object graphs.
-   Statements only; proofs live in Proofs/QueryProofs*.v.   (placeholder marker: rungs 2-3 still to come)
+   Statements only; proofs live in Proofs/QueryProofs.v, QueryProofsWalk.v, QueryV0Proofs.v.
+   The model (Model/Query.v) follows the code after the seven repairs listed there; the unrepaired walkers
+   are Model/QueryV0.v and the C13_..._refuted theorems state what was wrong with them.
    [o] "returns" means: (exists v, o = Ok v) \/ o = Err -- neither Panic nor OutOfFuel. *)
-From LV Require Import Base.Bytes Model.Obj Model.DocQ Model.PageTree Model.Query Gen.Consts Gen.QueryC
-  Proofs.QueryProofs.
+From LV Require Import Base.Bytes Model.Obj Model.DocQ Model.PageTree Model.Utf Model.Query Model.QueryV0
+  Gen.Consts Gen.QueryC Proofs.QueryProofs Proofs.QueryProofsWalk Proofs.QueryV0Proofs.
+From LV Require Model.Toc.
 
 (* (1) dereference, as the counting loop it is, returns within DEREF_LIMIT + 2 iterations on every graph
    (reference cycles, dangling references), and is the limit-recursive function used by the other models. *)
@@ -61,6 +64,113 @@ Proof.
   intro d. split; [apply get_pages_alloc_bounded|]. split; [apply hint_probe_bounded | apply hint_probe_first].
 Qed.
 
+(* (5) annotations, images, get_dict_in_dict, get_font_encoding are compositions of the total accessors:
+   their models are option-valued functions (no loop, no fuel, no panic site after e154731). *)
+Theorem C13_page_queries_return :
+  forall m pid font node k,
+    (exists r, get_page_annotations m pid = r) /\ (exists r, get_page_images m pid = r) /\
+    (exists r, get_dict_in_dict m node k = r) /\ (exists r, get_font_encoding m font = r).
+Proof. intros. repeat split; eexists; reflexivity. Qed.
+
+(* (6) get_named_destinations on ANY tree of ANY graph returns within |objects| + 1 nested calls: every
+   recursive call spends one unit of the kid budget (and the depth stays below NAME_TREE_DEPTH_LIMIT). *)
+Theorem C13_get_named_destinations_total :
+  forall m tree nm fuel, fuel_nd m <= fuel ->
+    (exists v, snd (get_named_destinations fuel m tree nm) = Ok v) \/ snd (get_named_destinations fuel m tree nm) = Err.
+Proof. intros m tree nm fuel H. apply returns_iff. apply get_named_destinations_total. exact H. Qed.
+
+(* (7) get_outlines / get_toc on ANY graph (cyclic First/Next, ill-typed, dangling, direct dictionaries nested
+   in one another) return with fuel (|objects| + 1) * (hmax + 1) + 1, hmax = the deepest nesting of an object:
+   measure = reference budget * (hmax + 1) + nesting height of the current node. *)
+Theorem C13_get_outlines_total :
+  forall d fuel, fuel_toc (d_objects d) <= fuel ->
+    (exists v, snd (get_outlines fuel d) = Ok v) \/ snd (get_outlines fuel d) = Err.
+Proof. intros d fuel H. apply returns_iff. apply get_outlines_total. exact H. Qed.
+
+Theorem C13_get_toc_total :
+  forall d fuel, fuel_toc (d_objects d) <= fuel ->
+    (exists v, get_toc fuel d = Ok v) \/ get_toc fuel d = Err.
+Proof. intros d fuel H. apply returns_iff. apply get_toc_total. exact H. Qed.
+
+(* (8) extract_text / extract_text_chunks: the graph part (page lookup, fonts, encodings, content) returns for
+   every filter decoder and every content/text decoder that return (those are C04/C09/C14/C15/C16 ground). *)
+Theorem C13_extract_text_chunks_total :
+  forall (decomp : dict -> bytes -> option bytes)
+         (text_of : list (bytes * enc_class) -> bytes -> option (list (option ustring))) d ns fuel,
+    fuel_text (d_objects d) <= fuel ->
+    Forall (fun o => (exists v, o = Ok v) \/ o = Err) (extract_text_chunks decomp text_of fuel d ns).
+Proof.
+  intros decomp text_of d ns fuel H. eapply Forall_impl; [|apply extract_text_chunks_total; exact H].
+  intros o Ho. apply returns_iff. exact Ho.
+Qed.
+
+(* ---- what was wrong before the repairs (Model/QueryV0.v), each with a 3-4 object witness ---- *)
+
+(* get_pages: a Pages sibling with a huge Count made collect() panic (capacity overflow), three of them made
+   size_hint's sum overflow, and a merely large one made it request 2^45 + 1 entries for a 4-object file *)
+Theorem C13_get_pages_refuted :
+  (exists d, fst (get_pages_v0 d) = Panic PCapacity) /\
+  (exists d, fst (get_pages_v0 d) = Panic POverflow) /\
+  (exists d, length (d_objects d) = 4 /\ snd (get_pages_v0 d) = 35184372088833%N).
+Proof.
+  split; [exists w_count_huge; exact v0_get_pages_capacity|].
+  split; [exists w_count_sum; exact v0_get_pages_overflow|].
+  exists w_count_alloc. destruct v0_get_pages_alloc as [H1 H2]. split; assumption.
+Qed.
+
+(* get_toc / get_outlines: index panic on `Dest []`; TRUE divergence (no fuel suffices) on an item whose Next or
+   First is itself *)
+Theorem C13_get_toc_refuted :
+  (exists d n, get_toc_v0 n d = Panic PIndex) /\
+  (exists d, forall n, get_toc_v0 n d = OutOfFuel /\ snd (get_outlines_v0 n d) = OutOfFuel) /\
+  (exists d, forall n, get_toc_v0 n d = OutOfFuel /\ snd (get_outlines_v0 n d) = OutOfFuel).
+Proof.
+  split; [exists w_dest_empty, 8; exact v0_toc_index|].
+  split.
+  - exists w_next_self. intro n. split; [apply v0_toc_diverges | apply v0_next_self_diverges].
+  - exists w_first_self. intro n. split; [apply v0_toc_diverges | apply v0_first_self_diverges].
+Qed.
+
+(* get_named_destinations: unwrap on a missing D, unwrap on a non-string key, index on a short array, true
+   divergence (unbounded recursion) on a Kids cycle *)
+Theorem C13_get_named_destinations_refuted :
+  (exists m tree, snd (nd_walk_v0 4 m tree []) = Panic PUnwrap) /\
+  (exists m tree, snd (nd_walk_v0 4 m tree []) = Panic PIndex) /\
+  (exists m tree, forall n nm, nd_walk_v0 n m tree nm = (nm, OutOfFuel)).
+Proof.
+  destruct v0_nd_panics as [H1 [_ [H3 _]]].
+  split; [eexists; eexists; exact H1|]. split; [eexists; eexists; exact H3|].
+  eexists; eexists. exact v0_nd_kids_diverges.
+Qed.
+
+Theorem C13_get_page_images_refuted :
+  exists m pid, get_page_images_v0 m pid = Panic PIndex.
+Proof. eexists; eexists. exact v0_images_index. Qed.
+
+(* the repaired queries return on every one of those witnesses *)
+Theorem C13_witnesses_repaired :
+  get_pages_alloc w_count_huge = 4%N /\ get_pages_alloc w_count_sum = 4%N /\ get_pages_alloc w_count_alloc = 4%N /\
+  get_toc (fuel_toc (d_objects w_dest_empty)) w_dest_empty = Ok ([], 0%N) /\
+  get_toc (fuel_toc (d_objects w_next_self)) w_next_self = Err /\
+  get_toc (fuel_toc (d_objects w_first_self)) w_first_self = Err /\
+  snd (get_named_destinations (fuel_nd (nd_objs tree_kids_self [])) (nd_objs tree_kids_self []) tree_kids_self []) = Err /\
+  get_page_images w_img_objs (2, 0)%N = None.
+Proof.
+  destruct fixed_get_pages_alloc as [A [B [C _]]]. destruct fixed_outlines_return as [D [E F]].
+  destruct fixed_nd_return as [_ [_ [_ G]]].
+  repeat split; try assumption; exact fixed_images_return.
+Qed.
+
+(* non-vacuity: a graph with a reference cycle and a Parent cycle on which the queries return values and errors *)
+Theorem C13_example_cycles :
+  q_dereference w_cycles (ORef 1 0) = Err /\
+  q_get_object w_cycles (1, 0)%N = Err /\
+  get_page_contents fuel_contents w_cycles (3, 0)%N = Ok [] /\
+  get_page_resources (fuel_resources w_cycles) w_cycles (3, 0)%N = Err /\
+  get_page_resources (fuel_resources w_cycles) w_cycles (4, 0)%N = Err /\
+  get_page_resources (fuel_resources w_cycles) w_cycles (1, 0)%N = Ok (None, []).
+Proof. exact example_cycles. Qed.
+
 Print Assumptions C13_dereference_total.
 Print Assumptions C13_get_object_total.
 Print Assumptions C13_catalog_total.
@@ -69,3 +179,14 @@ Print Assumptions C13_get_page_content_total.
 Print Assumptions C13_get_page_resources_total.
 Print Assumptions C13_get_page_fonts_total.
 Print Assumptions C13_get_pages_alloc_bounded.
+Print Assumptions C13_page_queries_return.
+Print Assumptions C13_get_named_destinations_total.
+Print Assumptions C13_get_outlines_total.
+Print Assumptions C13_get_toc_total.
+Print Assumptions C13_extract_text_chunks_total.
+Print Assumptions C13_get_pages_refuted.
+Print Assumptions C13_get_toc_refuted.
+Print Assumptions C13_get_named_destinations_refuted.
+Print Assumptions C13_get_page_images_refuted.
+Print Assumptions C13_witnesses_repaired.
+Print Assumptions C13_example_cycles.
